@@ -64,8 +64,10 @@ class _OnlyIter(object):
 
 def fin_kinds(l):
   """the kinds of Python object that can carry the finite sequence l"""
-  ks = ["list", "tuple", "deque", "dequeb", "gen", "iter", "streamiter", "stream", "onlyiter", "array", "mapobj",
-        "chainobj"]
+  ks = ["list", "tuple", "deque", "dequeb", "gen", "iter", "streamiter", "stream", "onlyiter", "mapobj",
+        "chainobj", "multi", "multi3"]
+  if all(-2 ** 63 <= x < 2 ** 63 for x in l):
+    ks += ["array"]
   if l == list(range(l[0] if l else 0, (l[0] if l else 0) + len(l))):
     ks += ["range", "islice_count"]
   if len(set(l)) == len(l):
@@ -103,8 +105,22 @@ def _raw(p, args):
   raise ValueError(k)
 
 
+def _parts(p, args):
+  """multi-argument forms Stream(a, b[, c]) / append(a, b[, c]): the sequence split over several iterables"""
+  import audiolazy, collections
+  l = list(p[1]); h = len(l) // 2
+  if p[2] == "multi":
+    a = l[:h]; args.append((a, list(a)))
+    return (a, (x for x in l[h:]))
+  q = (len(l) + 2) // 3
+  d = collections.deque(l[2 * q:]); args.append((d, collections.deque(d)))
+  return (tuple(l[:q]), audiolazy.Stream(l[q:2 * q]), d)
+
+
 def _mk(p, guard, box, args):
   import audiolazy
+  if p[0] == "fin" and len(p) > 2 and p[2] in ("multi", "multi3"):
+    return audiolazy.Stream(*_parts(p, args))
   if p[0] == "fin":
     r = _raw(p, args)
     return r if (len(p) > 2 and p[2] == "al_repeat") else audiolazy.Stream(r)
@@ -141,6 +157,37 @@ def _inplace(objs, s, r):
   return ["raise", "NotSelf"]
 
 
+REFUSED = {  # form -> exception the call must be refused with (and change nothing)
+  "ctor_mixed": "TypeError", "ctor_mixed_iter": "TypeError", "append_mixed": "TypeError",
+  "append_mixed_fresh": "TypeError", "ctor_empty": "TypeError", "append_empty": "TypeError",
+  "take_badctor": "TypeError", "peek_badctor": "TypeError", "take_str": "TypeError", "peek_str": "TypeError",
+  "limit_str": "TypeError", "tee_neg": "ValueError"}
+
+
+def _refused(objs, op):
+  """op = ["refused", form, i, j, variant]: a call that must raise; i / j are objects among its operands"""
+  import audiolazy
+  form, i, j, v = op[1], op[2], op[3], op[4]
+  if form == "ctor_mixed":
+    args = [(objs[j], 0), (None, objs[j]), (objs[j], 0, [1]), ([4], objs[j], 2.5)][v % 4]
+    return audiolazy.Stream(*args)
+  if form == "ctor_mixed_iter":
+    return audiolazy.Stream(iter(objs[j]), 0) if v % 2 == 0 else audiolazy.Stream(0, iter(objs[j]))
+  if form == "append_mixed":
+    return objs[i].append(objs[j], 0) if v % 2 == 0 else objs[i].append(None, objs[j])
+  if form == "append_mixed_fresh":
+    return objs[i].append([1, 2], 0)
+  if form == "ctor_empty": return audiolazy.Stream()
+  if form == "append_empty": return objs[i].append()
+  if form == "take_badctor": return objs[i].take(2, constructor=5)
+  if form == "peek_badctor": return objs[i].peek(2, constructor=5)
+  if form == "take_str": return objs[i].take("x")
+  if form == "peek_str": return objs[i].peek("x")
+  if form == "limit_str": return objs[i].limit("x")
+  if form == "tee_neg": return audiolazy.tee(objs[j], -1)
+  raise ValueError(form)
+
+
 def _step(objs, op, guard, box, env):
   import audiolazy, collections
   k = op[0]
@@ -151,6 +198,18 @@ def _step(objs, op, guard, box, env):
       elif op[1] == 1: v.append(99)
       else: v.clear()
     return ["self"]
+  if k == "refused":
+    _refused(objs, op)
+    return ["raise", "NotRefused"]
+  if k == "multi":   # Stream(a, b, ..) / s.append(a, b, ..) with two or more iterables (objects or fresh ones)
+    pyargs = [objs[a[1]] if a[0] == "obj" else _raw(["fin", a[1], a[2] if len(a) > 2 else "list"], env["args"])
+              for a in op[2]]
+    if op[1] < 0:
+      r = audiolazy.Stream(*pyargs)
+      if type(r) is not audiolazy.Stream: return ["raise", "BadStream"]
+      objs.append(r); return ["new", len(objs) - 1]
+    s = objs[op[1]]
+    return _inplace(objs, s, s.append(*pyargs))
   if k == "thubval":
     v = audiolazy.thub(op[1], op[2]); return ["item", v] if type(v) is int else ["raise", "BadItem"]
   if k == "teeval":
@@ -175,6 +234,8 @@ def _step(objs, op, guard, box, env):
   if k in ("skip", "limit"):
     return _inplace(objs, s, getattr(s, k)(pycount(op[2])))
   if k == "append":
+    if op[2][0] == "fin" and len(op[2]) > 2 and op[2][2] in ("multi", "multi3"):
+      return _inplace(objs, s, s.append(*_parts(op[2], env["args"])))
     if op[2][0] == "fin":
       return _inplace(objs, s, s.append(_raw(op[2], env["args"])))
     if guard:   # dry run of the generator: same values, but a runaway consumer is stopped
@@ -258,6 +319,19 @@ def alphabet(kinds, counts, rich=True):
           if j != i and kj[0] != "d":
             yield ["appendobj", i, j]
   if rich:
+    for i, kd in enumerate(kinds):
+      if kd[0] == "d":
+        continue
+      yield ["refused", "ctor_mixed", i, i, i]
+      yield ["multi", -1, [["obj", i], ["fresh", [8, 9]]]]
+      for j, kj in enumerate(kinds):
+        if j != i and kj[0] != "d":
+          if kd[0] == "s":
+            yield ["multi", i, [["fresh", [7]], ["obj", j]]]
+          if j > i:
+            yield ["multi", -1, [["obj", i], ["obj", j]]]
+      if kd[0] == "s":
+        yield ["refused", ("take_badctor", "peek_str", "append_mixed_fresh", "limit_str")[i % 4], i, i, 0]
     yield ["thubval", 5, 2]
     yield ["teeval", 5, 3]
 
@@ -265,8 +339,21 @@ def alphabet(kinds, counts, rich=True):
 def advance(op, kinds):
   """object kinds after op, mirroring which calls create / use up / kill objects"""
   k = op[0]
-  if k in ("thubval", "teeval", "next", "mutate"):
+  if k in ("thubval", "teeval", "next", "mutate", "refused"):
     return kinds
+  if k == "multi":                                 # iter(arg) for every argument, left to right
+    kinds = list(kinds)
+    for a in op[2]:
+      if a[0] != "obj":
+        continue
+      kj = kinds[a[1]]
+      if kj[0] == "s":
+        kinds[a[1]] = ("d",)
+      elif kj[0] == "h" and kj[1] > 0:
+        kinds[a[1]] = ("h", kj[1] - 1)
+      else:
+        return kinds                               # IndexError: the earlier arguments stay charged
+    return kinds + [("s",)] if op[1] < 0 else kinds
   i = op[1]; kd = kinds[i]; kinds = list(kinds)
   if k == "appendobj":                             # Stream(obj_j): a hub loses a use, a Stream is handed over
     kj = kinds[op[2]]
@@ -333,14 +420,15 @@ def gen_hubappend(tier):
   """a hub is appended to a stream; its remaining uses are requested before / after the
   appended stream reaches the appended part (the append itself is one of the n uses)"""
   mid = [["appendobj", 0, 2], ["use", 2], ["take", 0, ["int", 1]], ["take", 0, ["int", 2]],
-         ["peek", 2, ["int", 2]], ["copy", 2], ["peek", 0, ["int", 3]]]
+         ["peek", 2, ["int", 2]], ["copy", 2], ["peek", 0, ["int", 3]],
+         ["multi", 0, [["fresh", [9]], ["obj", 2]]], ["multi", -1, [["obj", 2], ["fresh", [9]], ["obj", 2]]]]
   maxlen = 3 if tier == "quick" else 4
   for own in ([0], []):
     for tail in (["fin", [1, 2, 3]], ["cyc", [4, 5]]):
       for n in (0, 1, 2):
         for ln in range(1, maxlen + 1):
           for seq in itertools.product(mid, repeat=ln):
-            if ["appendobj", 0, 2] not in seq:
+            if not any(op[0] in ("appendobj", "multi") for op in seq):
               continue
             ops, kinds = [["thub", 1, n]], advance(["thub", 1, n], [("s",), ("s",)])
             for op in seq:
@@ -367,6 +455,9 @@ class _Rot(object):
     return seq[self.k % len(seq)]
 
 
+_SINGLE_KINDS = ("list", "tuple", "deque", "gen", "iter", "onlyiter", "mapobj")
+
+
 def kinded(p, rot):
   return [p[0], p[1], rot.pick(fin_kinds(p[1]) if p[0] == "fin" else cyc_kinds(p[1]))]
 
@@ -383,6 +474,8 @@ def decorate(ops, rot, always=False):
     else:
       if op[0] == "append" and op[2][0] == "fin":
         op = [op[0], op[1], kinded(op[2], rot)]
+      if op[0] == "multi":
+        op = [op[0], op[1], [a if a[0] == "obj" else ["fresh", a[1], rot.pick(_SINGLE_KINDS)] for a in op[2]]]
       out.append(op)
   return out
 
@@ -415,7 +508,43 @@ def gen_alias(tier, rng):
                            ["alias", kind, first, "mut"])
 
 
+def gen_refused(tier, rng):
+  """error paths: calls that are refused (mixed iterable / non-iterable arguments with a hub, a Stream or its
+  iterator among them, bad constructor, bad count type, negative tee) must change nothing: afterwards the hub
+  still hands out exactly its remaining uses and every stream yields what it would have yielded"""
+  mid = [["refused", "ctor_mixed", 2, 2, v] for v in range(4)]
+  mid += [["refused", "append_mixed", 0, 2, v] for v in range(2)]
+  mid += [["refused", "ctor_mixed", 0, 0, 1], ["refused", "ctor_mixed_iter", 0, 0, 0], ["refused", "ctor_mixed_iter", 0, 0, 1]]
+  mid += [["refused", f, 0, 0, 0] for f in ("take_badctor", "peek_badctor", "take_str", "peek_str", "limit_str",
+                                            "append_mixed_fresh", "append_empty", "ctor_empty")]
+  mid += [["refused", "tee_neg", 0, 0, 0], ["refused", "tee_neg", 2, 2, 0]]
+  mid += [["use", 2], ["peek", 2, ["int", 2]], ["take", 0, ["int", 1]], ["appendobj", 0, 2]]
+  mid += [["multi", 0, [["fresh", [8]], ["obj", 2]]], ["multi", -1, [["obj", 2], ["fresh", [8]]]],
+          ["multi", -1, [["obj", 2], ["obj", 2]]]]
+  maxlen = 2 if tier == "quick" else 3
+  for tail in (["fin", [1, 2, 3]], ["cyc", [4, 5]]):
+    for n in (0, 1, 2):
+      for ln in range(1, maxlen + 1):
+        for seq in itertools.product(mid, repeat=ln):
+          if not any(op[0] == "refused" for op in seq):
+            continue
+          if tier != "quick" and ln == 3 and rng.random() > 0.5:
+            continue
+          ops, kinds = [["thub", 1, n]], advance(["thub", 1, n], [("s",), ("s",)])
+          for op in seq:
+            ops.append(op); kinds = advance(op, kinds)
+          for _k in range(n + 1):
+            ops.append(["use", 2]); kinds = advance(ops[-1], kinds)
+          ops.append(["take", 0, ["int", 9]])
+          for i, kd in enumerate(kinds):
+            if kd[0] == "s" and i != 0:
+              ops.append(["take", i, ["int", 4]])
+          yield finish([["fin", [0, 5]], tail], ops, ["refused", "n=%d" % n])
+
+
 def gen_hist(tier, rng):
+  for c in gen_refused(tier, rng):
+    yield c
   for c in gen_alias(tier, rng):
     yield c
   for c in gen_hubappend(tier):
@@ -446,7 +575,8 @@ def gen_hist(tier, rng):
     pool = []
     for _k in range(rng.randrange(1, 4)):
       if rng.random() < 0.65:
-        pool.append(["fin", [rng.randrange(-9, 10) for _j in range(rng.randrange(0, 9))]])
+        pool.append(["fin", [rng.randrange(-9, 10) if rng.random() < 0.95 else rng.choice([2 ** 70, -2 ** 63, 10 ** 18 + 1])
+                             for _j in range(rng.randrange(0, 9))]])
       else:
         pool.append(["cyc", [rng.randrange(-9, 10) for _j in range(rng.randrange(1, 5))]])
     ops, kinds = [], [("s",)] * len(pool)
@@ -472,6 +602,11 @@ def lit_op(op):
   name = "O" + k.capitalize()
   if k == "mutate":
     return "OMutateResult %s" % L.nat(op[1])
+  if k == "refused":
+    return "ORefused %s" % L.string(REFUSED[op[1]])
+  if k == "multi":
+    args = ["MObj %s" % L.nat(a[1]) if a[0] == "obj" else "MFresh %s" % zl(a[1]) for a in op[2]]
+    return "OMulti %s %s" % ("None" if op[1] < 0 else "(Some %s)" % L.nat(op[1]), L.lst(args))
   if k in ("next", "copy", "use"):
     return "%s %s" % (name, L.nat(op[1]))
   if k in COUNTED:
@@ -512,9 +647,12 @@ def nontrivial_hist(c, o):
   """two objects of one family (origin, copies, tee outputs, hub uses) are both consumed after the split"""
   root = {}
   for op, ob in zip(c["ops"], o["outs"]):
-    if op[0] in ("thubval", "teeval", "mutate"):
+    if op[0] in ("thubval", "teeval", "mutate", "refused"):
       continue
-    r = root.get(op[1], op[1])
+    src = op[1]
+    if op[0] == "multi" and src < 0:
+      src = next((a[1] for a in op[2] if a[0] == "obj"), -1)
+    r = root.get(src, src)
     if ob[0] == "new":
       root[ob[1]] = r
     elif ob[0] == "news":
